@@ -548,6 +548,7 @@ fn main() {
         let list: Vec<WCase> = serde_json::from_value(case).unwrap();
         run_list(&mut rn, &mut cw, &list);
         for f in rn.fails.clone() { rn.stats.monitor_fail(f); }
+        rn.stats.extra.insert("replay".into(), serde_json::json!(true));
         cw.finish(&rn.stats, "evm_ops");
         return;
     }
@@ -624,6 +625,16 @@ fn main() {
     rn.stats.extra.insert("random_cases".into(), serde_json::json!(n_random));
     rn.stats.extra.insert("immediate_form_cross_checks".into(), serde_json::json!(rn.imm_checked));
     rn.stats.extra.insert("monitor_failures_total".into(), serde_json::json!(rn.fails.len()));
+    // per class: how many, and the first witness (stats.monitor_failures keeps only the first 20 overall)
+    let mut by_class: std::collections::BTreeMap<String, (u64, serde_json::Value)> = Default::default();
+    for f in &rn.fails {
+        let c = f["class"].as_str().unwrap_or("?").to_string();
+        by_class.entry(c).and_modify(|e| e.0 += 1).or_insert((1, f["what"].clone()));
+    }
+    rn.stats.extra.insert(
+        "monitor_failures_by_class".into(),
+        serde_json::json!(by_class.iter().map(|(k, (n, w))| serde_json::json!({"class": k, "count": n, "first": w})).collect::<Vec<_>>()),
+    );
     rn.stats.extra.insert("instructions".into(), serde_json::json!(OPS.iter().map(|o| format!("0x{:02x} {}", o.byte, o.name)).collect::<Vec<_>>()));
     cw.finish(&rn.stats, "evm_ops");
 }
